@@ -174,6 +174,33 @@ func ValidVariants(s *Schema) []Variant {
 	m.Defs = append(m.Defs, intf("NewI", fld("x", N("Int"), arg("a", N("Int")))), obj("NewO", fld("x", NN(N("Int")), arg("a", N("Int")), arg("b", N("String")))).Impl("NewI"),
 		uni("NewU", "NewO"), enu("NewE", "P", "Q"), inp("NewIn", ifldD("e", N("NewE"), E("Q"))), scl("NewS"), dir("newd", []string{"OBJECT", "UNION"}, arg("x", N("NewIn"))))
 	add(m, "one new definition of every kind")
+	// root operation types: an explicit schema block that names only the query root, beside ordinary object types that
+	// happen to be called Mutation and Subscription (they are NOT root types then); and, with no block, the same two
+	// objects, which then are the roots by their names
+	if q, _, _ := s.RootTypes(); q != "" {
+		for _, explicit := range []bool{true, false} {
+			if !explicit && len(s.Blocks) > 0 {
+				continue
+			}
+			m := s.Clone()
+			if explicit {
+				if len(m.Blocks) > 0 {
+					continue
+				}
+				m.Blocks = []*SchemaBlock{{Query: q}}
+			}
+			added := false
+			for _, n := range []string{"Mutation", "Subscription"} {
+				if m.Def(n) == nil {
+					m.Defs = append(m.Defs, obj(n, fld("op"+n, N("Int"))))
+					added = true
+				}
+			}
+			if added || explicit {
+				add(m, fmt.Sprintf("objects named Mutation and Subscription, explicit schema block naming only the query root: %v", explicit))
+			}
+		}
+	}
 	return out
 }
 
